@@ -178,8 +178,8 @@ def make_lock(op, oracle):
 def _cell(op, oracle, h, b1, b2):
     """every (memo1, memo2, observer) program of the cell; returns None or a description of the first failure"""
     m1s = (0, 3) if QUICK[0] else (0, 1, 2, 3)
-    m2s = (0, 1, 3) if QUICK[0] else (0, 1, 2, 3)
-    obs = (0, 1, 2, 8, 10) if QUICK[0] else range(len(OBS))
+    m2s = (0, 1, 2, 3)
+    obs = (0, 1, 8, 10) if QUICK[0] else range(len(OBS))
     bad = ("EVENTS",) if oracle == "C03" else ("VALUE", "EXEC")
     for m1 in m1s:
         for m2 in m2s:
